@@ -32,7 +32,7 @@ func (c19) Required() []string {
 func (c19) Cases(tier string, seed uint64) []core.Case {
 	n := 240
 	if tier == "thorough" {
-		n = 6000
+		n = 200000
 	}
 	r := core.NewRng(core.Mix(seed, 0xC19))
 	var out []core.Case
